@@ -171,17 +171,26 @@ def exc_start_runerror(I, env):
 
 # ---- join ----------------------------------------------------------------
 
+def call_was_allowed(I, env):
+    """join() gets past its state guard only from RUNNING or FINISHED: every outcome other than the
+    state error of a refused call implies that the life cycle allowed the call"""
+    M = members(I)
+    return state_in(env.vars["state0"], M["RUNNING"], M["FINISHED"])
+
+
 def ens_join(I, env):
     M = members(I)
     st, runs, evals, cl = cur(env)
-    return [("state", state_is(st, M["JOINED"])), ("cleanup_once", cl == env.vars["cleanups0"] + 1),
+    return [("call_was_allowed", call_was_allowed(I, env)),
+            ("state", state_is(st, M["JOINED"])), ("cleanup_once", cl == env.vars["cleanups0"] + 1),
             ("evaluated_once", evals == env.vars["evals0"] + 1), ("no_rerun", runs == env.vars["runs0"])]
 
 
 def exc_join_terminal(I, env):
     M = members(I)
     st, runs, evals, cl = cur(env)
-    return [("state", state_is(st, M["CANCELLED"])), ("cleanup_once", cl == env.vars["cleanups0"] + 1)]
+    return [("call_was_allowed", call_was_allowed(I, env)),
+            ("state", state_is(st, M["CANCELLED"])), ("cleanup_once", cl == env.vars["cleanups0"] + 1)]
 
 
 def exc_join_stateerror(I, env):
@@ -421,7 +430,8 @@ def ens_local_join(I, env):
     M = members(I)
     st, runs, evals, cl = cur(env)
     p = env.vars["self"].attrs["_process"]
-    return [("state", state_is(st, M["JOINED"])), ("cleanup_once", cl == env.vars["cleanups0"] + 1),
+    return [("call_was_allowed", call_was_allowed(I, env)),
+            ("state", state_is(st, M["JOINED"])), ("cleanup_once", cl == env.vars["cleanups0"] + 1),
             ("evaluated_once", evals == env.vars["evals0"] + 1),
             ("exit_code_zero", natives.eq(I, p.attrs["returncode"], 0)),
             ("not_killed", p.attrs["_g_kills"] == 0)]
@@ -430,14 +440,16 @@ def ens_local_join(I, env):
 def exc_local_join_failed(I, env):
     M = members(I)
     st, runs, evals, cl = cur(env)
-    return [("state", state_is(st, M["CANCELLED"])), ("cleanup_once", cl == env.vars["cleanups0"] + 1)]
+    return [("call_was_allowed", call_was_allowed(I, env)),
+            ("state", state_is(st, M["CANCELLED"])), ("cleanup_once", cl == env.vars["cleanups0"] + 1)]
 
 
 def exc_local_join_timeout(I, env):
     M = members(I)
     st, runs, evals, cl = cur(env)
     p = env.vars["self"].attrs["_process"]
-    return [("state", state_is(st, M["CANCELLED"])), ("cleanup_once", cl == env.vars["cleanups0"] + 1),
+    return [("call_was_allowed", call_was_allowed(I, env)),
+            ("state", state_is(st, M["CANCELLED"])), ("cleanup_once", cl == env.vars["cleanups0"] + 1),
             ("killed_once", p.attrs["_g_kills"] == 1)]
 
 
